@@ -51,7 +51,8 @@ def criteria_giles(alpha: float, ml: np.array, rmse: float) -> bool:
     :param rmse: root-mean square error
     :return: true if the convergence criteria has been met
     """
-    rem = max(ml[-1], ml[-2] / 2**alpha, ml[-3] / 2 ** (2 * alpha)) / (2**alpha - 1)
+    nb_levels = min(3, len(ml))  # extrapolate from the last three levels, or fewer if there are not that many yet
+    rem = max(ml[-1 - k] / 2 ** (k * alpha) for k in range(nb_levels)) / (2**alpha - 1)
     return rem <= np.sqrt(THETA) * rmse
 
 
